@@ -252,6 +252,12 @@ type vRead struct {
 type vBytesSeq struct{ Ops []*Op }
 type vLocalBuf struct{ ops *[]*Op }
 type vStruct struct{ root *Root }
+type litField struct {
+	f    *types.Var
+	v    val
+	expr ast.Expr
+}
+type vStructLit struct{ fields []litField }
 type vLen struct{ Of Path }
 type vIndex struct{}
 type vRest struct{}
@@ -483,6 +489,10 @@ func (w *walker) store(p Path, v val, rhsExpr ast.Expr, pos token.Pos) {
 	case vStruct:
 		// re-root every op that was produced into the helper-local struct
 		w.reroot(w.seq.Ops, v.root, p)
+	case vStructLit:
+		for _, lf := range v.fields {
+			w.store(p.extend(Elem{Field: lf.f, Index: -1}), lf.v, lf.expr, pos)
+		}
 	case vTail:
 		v.Op.Field = p
 	case vMake:
@@ -961,6 +971,34 @@ func (w *walker) eval(e ast.Expr) val {
 		}
 		if _, ok := info.TypeOf(e).Underlying().(*types.Struct); ok && len(e.Elts) == 0 {
 			return vStruct{root: &Root{Name: "lit"}}
+		}
+		// T{F: <value read>, G: conv(<value read>)}: the elements are evaluated in source order; storing the literal stores
+		// each element into its field
+		if st, ok := info.TypeOf(e).Underlying().(*types.Struct); ok && !w.encode {
+			var lit vStructLit
+			for i, el := range e.Elts {
+				var fv *types.Var
+				valExpr := el
+				if kv, isKV := el.(*ast.KeyValueExpr); isKV {
+					id, isID := kv.Key.(*ast.Ident)
+					if !isID {
+						return vOpaque{"composite literal " + types.ExprString(e.Type)}
+					}
+					for k := 0; k < st.NumFields(); k++ {
+						if st.Field(k).Name() == id.Name {
+							fv = st.Field(k)
+						}
+					}
+					valExpr = kv.Value
+				} else if i < st.NumFields() {
+					fv = st.Field(i)
+				}
+				if fv == nil {
+					return vOpaque{"composite literal " + types.ExprString(e.Type)}
+				}
+				lit.fields = append(lit.fields, litField{fv, w.eval(valExpr), valExpr})
+			}
+			return lit
 		}
 		return vOpaque{"composite literal " + types.ExprString(e.Type)}
 	case *ast.CallExpr:
